@@ -65,7 +65,7 @@ def gen(rp, rw, tier):
                 clocks.append(c2)
                 nem.append(["nem", "clock", c2])
             elif k < 0.85:
-                nem.append(["nem", "locale", rw.choice(locales)])
+                nem.append(["nem", "locale", rw.choice(locales + ["xx", "en_zz"]) if rw.random() < 0.15 else rw.choice(locales)])
             else:
                 nem.append(["nem", "mock_tz", rw.choice([None, zone_clock, "Asia/Tokyo"])])
     pool, meta = [], []
